@@ -88,6 +88,7 @@ def purify(forms):
             z3.Z3_OP_DISTINCT, z3.Z3_OP_XOR, z3.Z3_OP_IFF if hasattr(z3, 'Z3_OP_IFF') else z3.Z3_OP_EQ)
 
     alive = []        # keep every visited term alive: z3 re-uses the ids of freed terms
+    arith = (z3.Z3_INT_SORT, z3.Z3_REAL_SORT, z3.Z3_BOOL_SORT)
 
     def const_for(t):
         k = t.get_id()
@@ -111,6 +112,12 @@ def purify(forms):
                 r = t if (z3.is_int_value(t) or z3.is_rational_value(t) or z3.is_true(t) or z3.is_false(t)
                           or t.sort().kind() in (z3.Z3_INT_SORT, z3.Z3_REAL_SORT, z3.Z3_BOOL_SORT)) else const_for(t)
             elif t.decl().kind() in keep:
+                ch = [go(c) for c in t.children()]
+                r = t.decl()(*ch)
+            elif (t.decl().kind() == z3.Z3_OP_UNINTERPRETED and t.sort().kind() in arith
+                  and all(c.sort().kind() in arith for c in t.children())):
+                # uninterpreted function of numbers (sqrt, log, a distribution function, ...): keep the application so that
+                # equal arguments give equal values (congruence); its arguments are purified
                 ch = [go(c) for c in t.children()]
                 r = t.decl()(*ch)
             else:
@@ -193,6 +200,14 @@ def _decide(args):
         total += sec4
         if st4 == 'unsat':
             return Verdict(ob, 'unsat', 'z3-5.1/qf-core', total)
+    if ob.kind == 'hint':
+        # proof steps are mostly pointwise arithmetic that needs none of the quantified lemma library: try without it first
+        nb0 = path.replace('.smt2', '.nobg.smt2')
+        if os.path.exists(nb0):
+            st0, sec0, _ = _run_cli([Z3_CLI, '-T:3'], nb0, 3)
+            total += sec0
+            if st0 == 'unsat':
+                return Verdict(ob, 'unsat', 'z3-5.1/no-library', total)
     # a short slice of the main solver, then the second solver, then the main solver with the whole budget
     first = min(5, timeout_s)
     st, sec, detail = _run_cli([Z3_CLI, '-T:%d' % first], path, first)
@@ -204,6 +219,15 @@ def _decide(args):
         total += sec6
         if st6 == 'unsat':
             return Verdict(ob, 'unsat', 'z3-4.8.12', total)
+    if ob.kind == 'hint' and timeout_s <= 10:
+        # proof steps are optional: a step that does not go through quickly is simply not used
+        nb = path.replace('.smt2', '.nobg.smt2')
+        if os.path.exists(nb):
+            st5, sec5, _ = _run_cli([Z3_CLI, '-T:5'], nb, 5)
+            total += sec5
+            if st5 == 'unsat':
+                return Verdict(ob, 'unsat', 'z3-5.1/no-library', total)
+        return Verdict(ob, 'unknown', 'z3-5.1', total, (detail or 'incomplete').strip())
     if z3.is_false(ob.goal):
         # "this path is infeasible": only the path condition matters - one more attempt on the path condition and the lemma
         # instances alone, then give up (the long ladder below is for goals with content)
